@@ -3,7 +3,7 @@
    a literal is out of range. *)
 From Coq Require Import List ZArith Bool Lia Permutation.
 From DD Require Import Model.Circuit Model.Query Model.Enumerate
-     Proofs.PassLemmas Proofs.Enum Proofs.Semantics Proofs.CountsA Proofs.C07Defs Proofs.C07Valid.
+     Proofs.PassLemmas Proofs.Enum Proofs.Semantics Proofs.CountsA Proofs.Live Proofs.C07Defs Proofs.C07Valid.
 Import ListNotations.
 Open Scope Z_scope.
 
@@ -197,7 +197,8 @@ Proof.
   pose proof (wf_idx C n HWF) as Hok. pose proof (root_lt C (wf_nonempty C n HWF)) as Hrl.
   destruct (sample_node_valid d A (temps s2) Hok Hts (length C) amount (root C) chs)
     as [l [rest [Hs [Hlen HV]]]]; try assumption.
-  - right. split; [exact Hroot|]. rewrite (Hts (root C) Hrl Hroot), (countsA_MCA C n A HWF HA). lia.
+  - apply reach_root.
+  - right. split; [exact Hroot|]. rewrite (Hts (root C) Hrl Hroot (reach_root C)), (countsA_MCA C n A HWF HA). lia.
   - change (rootn d) with (root C). change (length (circ d)) with (length C). rewrite Hs.
     exists (map sort_abs l). cbn [fst snd]. split; [reflexivity|]. split; [now rewrite map_length|].
     apply Forall_forall. intros m Hm. apply in_map_iff in Hm. destruct Hm as [sm [<- Hsm]].
